@@ -202,10 +202,15 @@ def type_sig(tp: onnx.TypeProto):
     return (tp.WhichOneof("value") or "untyped",)
 
 
-def model_interface_diff(orig: onnx.ModelProto, back: onnx.ModelProto, rename: bool):
+def model_interface_diff(orig: onnx.ModelProto, back: onnx.ModelProto, rename: bool, all_names=()):
     """-> list of problem strings.  Names of inputs are compared after the documented clean-up unless the
-    rename option (documented as 'rename the names to get shorter names') is on."""
+    rename option (documented as 'rename the names to get shorter names') is on, or the cleaned name is shared
+    with another value of the model (then no naming can both follow the clean-up and stay injective)."""
     probs = []
+    cleaned = {}
+    for n in all_names:
+        cleaned.setdefault(spec_clean(n), set()).add(n)
+    ambiguous = {c for c, ns in cleaned.items() if len(ns) > 1}
     oi = list(orig.graph.input)
     bi = list(back.graph.input)
     oo, bo = list(orig.graph.output), list(back.graph.output)
@@ -216,8 +221,10 @@ def model_interface_diff(orig: onnx.ModelProto, back: onnx.ModelProto, rename: b
     for k, (a, b) in enumerate(zip(oi, bi)):
         if type_sig(a.type) != type_sig(b.type):
             probs.append(f"input {k} type {type_sig(a.type)} -> {type_sig(b.type)}")
-        if not rename and spec_clean(a.name) != b.name:
+        if not rename and spec_clean(a.name) != b.name and spec_clean(a.name) not in ambiguous:
             probs.append(f"input {k} name {a.name!r} -> {b.name!r} (clean-up gives {spec_clean(a.name)!r})")
+    if len({i.name for i in bi}) != len(bi):
+        probs.append(f"input names not distinct: {[i.name for i in bi]}")
     for k, (a, b) in enumerate(zip(oo, bo)):
         if type_sig(a.type) != type_sig(b.type):
             probs.append(f"output {k} type {type_sig(a.type)} -> {type_sig(b.type)}")
@@ -236,10 +243,6 @@ def function_interface_diff(orig: onnx.FunctionProto, back: onnx.FunctionProto, 
         probs.append(f"attribute parameters {oa} -> {ba}")
     if (orig.domain, orig.name) != (back.domain, back.name):
         probs.append(f"identity {(orig.domain, orig.name)} -> {(back.domain, back.name)}")
-    if not rename:
-        for k, (a, b) in enumerate(zip(orig.input, back.input)):
-            if spec_clean(a) != b:
-                probs.append(f"input {k} name {a!r} -> {b!r}")
     return probs
 
 
